@@ -406,8 +406,9 @@ pub fn matches(got: Decimal, want: Decimal, q: Q) -> bool {
     match q {
         Q::Skip => true,
         Q::Exact => got == want,
+        // a Decimal resolves 1e-28 at best: an inexact result may differ by one unit in the last place
         Q::Tol(t) => match got.checked_sub(want) {
-            Some(d) => f(d).abs() <= t,
+            Some(d) => f(d).abs() <= t + 1.0000001e-28,
             None => false,
         },
         Q::Near(real, tol) => (f(got) - real).abs() <= tol,
